@@ -153,7 +153,8 @@ def add_query_argument(url, name, value=None, quote=True):
     if len(s) > 1:
         url, fragment = s
 
-    s = url.rsplit("?", 1)
+    # NOTE: the query starts at the first "?"
+    s = url.split("?", 1)
 
     if len(s) > 1:
         url, query = s
